@@ -127,6 +127,21 @@ CHECKS = {
    note=TRUST + 'Assumed: the file-system contract above; link targets are not links themselves (chains outside the bound); targets lie inside the root tree or are dangling '
         '(targets above / outside the root — where the depth arithmetic can underflow — are outside the bound); no depth window; check_file summarised. Bounds: 4/5 nodes.',
    technique=TECH),
+ 'C09': dict(
+   level='model_checking', design_ref='DESIGN.md §5 C09',
+   text='Real MIR of output/{mod,flat,html,json,csv}.rs, util/wbuf.rs and the row-emitting sites of searcher.rs, z3: (cells) ResultsWriter::new / write_header / write_row / '
+        'write_row_separator / write_footer through the Box<dyn ResultsFormatter> of each of the six formats on a 2 x 2 table whose first row is made of symbolic characters (any '
+        'Unicode scalar): html = fixed skeleton, every value character raw (then shown not to be < > &) or an entity that unescapes to it; tabs / lines / list = values verbatim '
+        'between exactly the format\'s separators; json / csv = the encoder is called once per row with exactly that row\'s pairs / values, `[` `,` `]` around them, and a record '
+        'that the buffered csv writer hands over in two writes cut at an arbitrary byte (possibly inside a multi-byte character) still arrives. (protocol) the real '
+        'list_search_results + check_file + ResultsWriter + formatters inside the abstract file system (tree shape and per-entry WHERE verdicts symbolic, concrete adversarial '
+        'values): for the streamed (1 and 2 roots), ordered, aggregate and grouped paths and all six formats stdout decodes (JSON / CSV / HTML parsers, separator splitting) to exactly '
+        'the accepted rows.',
+   note=TRUST + 'Assumed: serde_json::to_string and csv::Writer are third-party encoders (cells: one token per call carrying its arguments; protocol: Python json / csv with minimal '
+        'quoting) — their byte-level RFC conformance is trusted, and a change of their configuration (a WriterBuilder) is reported inconclusive; io::Write::write_fmt renders and '
+        'hands the text to the target\'s real write; get_field_value summarised (concrete values per entry); colours off. Bounds: cells 2 rows x 2 columns, values of <= 2 symbolic '
+        'characters, replacement patterns of one character; protocol 4 (quick) / 5 (thorough) entries, regular files only. Flat formats are claimed only for values without their separators.',
+   technique=TECH),
  'C10': dict(
    level='model_checking', design_ref='DESIGN.md §5 C10',
    text='The whole real parser (Parser::parse with every parse_* method, Field::from_str, Function::from_str, Op::from ...) is executed symbolically from MIR on '
